@@ -357,3 +357,17 @@ Definition api_stats (s : state) : option data := if dbnil s then None else Some
 (** Sum of nResult[RNotFiltered] over the loaded units (not in the API answer;
     read by the harness through loadUnits). *)
 Definition num_nf (s : state) : Z := zsum (map u_nf (load_units s)).
+
+(** GET /control/stats_info (deprecated): the interval in days; a custom
+    interval, or less than a day while enabled, is shown as 90; disabled as 0. *)
+Definition stats_info (s : state) : Z :=
+  if negb (enabled s) then 0
+  else
+    let d := u32 (lim_ms s / ms_day) in
+    if negb (checked_days d) || (d =? 0) then 90 else d.
+
+(** TopClientsIP(maxCount) for a [maxCount] above the number of clients: the
+    clients of the loaded units (every name of the harness is an address);
+    nothing while disabled. *)
+Definition top_clients_ip (s : state) : list Z :=
+  if enabled s && negb (lim s =? 0) then map fst (fold_left merge (map u_cli (load_units s)) []) else [].
